@@ -108,7 +108,12 @@ def inline_defaults(files):
         for key, kind in (("modules", "module"), ("apps", "app")):
             D = mine.get(kind)
             if not D: continue
-            if key in d and d[key] is None: return None
+            if key in d and d[key] is None:
+                # a bare `apps:` / `modules:` declares one unnamed entry (named after its directory): under defaults it is
+                # that entry with the defaults written out
+                if not posixpath.dirname(fn): return None
+                d[key] = [resolve_removals(combine(D, {}))]; changed = True
+                continue
             if d.get(key):
                 d[key] = [resolve_removals(combine(D, m)) for m in d[key]]; changed = True
     return f2 if changed else None
